@@ -6,6 +6,7 @@ world-level statement with its counter-witness for the offset table (known findi
 import Cntgs.AllocProofs
 import Cntgs.World
 import Cntgs.OwnProofs
+import Cntgs.ElemOwnProofs
 namespace Cntgs.C07
 
 /-- every block is obtained from the allocator with the recorded size; the new pointer owns it -/
@@ -89,5 +90,53 @@ theorem data_blocks_returned_exactly_once (c : ACfg) (ops : List OOp) (hv : OVal
 theorem ownership_invariant (c : ACfg) (ops : List OOp) (hv : OValid ({ acfg := c } : World) ops) :
     WOwn (ops.foldl OOp.apply ({ acfg := c } : World)) :=
   (WOwn.init c).history ops hv
+
+
+/-- **vectors and standalone elements together, on whole histories**: starting from nothing, after ANY history that mixes
+    the operations on vectors with the constructions (from references, copies, allocator-extended copies and moves), both
+    assignments on all their branches, swaps and destructions of ContiguousElements — whichever allocations throw — no
+    ledger error has occurred (no double free, no free with a wrong size, no free through an unequal allocator); every
+    vector and every element owns a live block of exactly its recorded size from an allocator equal to its own; every live
+    data block is owned by a vector or by an element, and no block has two owners. -/
+theorem vectors_and_elements_ownership (ps : List Param) (c : ACfg) (ops : List JOp)
+    (hv : JValid ps ({ w := { acfg := c } } : EWorld) ops) :
+    let ew := ops.foldl (JOp.apply ps) ({ w := { acfg := c } } : EWorld)
+    ew.w.heap.errs = [] ∧ ew.w.heap.WF ∧
+    (∀ k v, ew.w.vecs k = some v → Owns ew.w.heap ew.w.acfg v.S v.ptr) ∧
+    (∀ k e, ew.elems k = some e → Owns ew.w.heap ew.w.acfg (storageAl ps) e.ptr) ∧
+    (∀ b ∈ ew.w.heap.live, b.kind = .data →
+      (∃ k v, ew.w.vecs k = some v ∧ v.blk = some b.serial) ∨ (∃ k e, ew.elems k = some e ∧ e.ptr.blk = some b.serial)) ∧
+    (∀ k v j e s, ew.w.vecs k = some v → ew.elems j = some e → v.blk = some s → e.ptr.blk ≠ some s) ∧
+    (∀ j1 j2 e1 e2 s, ew.elems j1 = some e1 → ew.elems j2 = some e2 → e1.ptr.blk = some s → e2.ptr.blk = some s → j1 = j2) :=
+  ((EOwn.init ps c).history ops hv).unfold
+
+/-- … and once every vector and every element has been destroyed, no data block is live -/
+theorem nothing_left_behind (ps : List Param) (c : ACfg) (ops : List JOp)
+    (hv : JValid ps ({ w := { acfg := c } } : EWorld) ops)
+    (hnov : ∀ k, (ops.foldl (JOp.apply ps) ({ w := { acfg := c } } : EWorld)).w.vecs k = none)
+    (hnoe : ∀ k, (ops.foldl (JOp.apply ps) ({ w := { acfg := c } } : EWorld)).elems k = none) :
+    ∀ b ∈ (ops.foldl (JOp.apply ps) ({ w := { acfg := c } } : EWorld)).w.heap.live, b.kind = .table := by
+  intro b hb
+  have h := ((EOwn.init ps c).history ops hv).unfold
+  cases hk : b.kind with
+  | table => rfl
+  | data =>
+    rcases h.2.2.2.2.1 b hb hk with ⟨k, v, hkv, _⟩ | ⟨k, e, hke, _⟩
+    · rw [hnov k] at hkv; exact absurd hkv (by simp)
+    · rw [hnoe k] at hke; exact absurd hke (by simp)
+
+/-- non-vacuity: a vector, an element constructed from it, a copy of the element with another allocator, an assignment
+    and the destructions form a valid mixed history -/
+example :
+    let ps : List Param := [⟨.plain, 4, 4, {}⟩]
+    JValid ps ({ w := { acfg := {} } } : EWorld)
+      [.vec (.new 0 ps [0] 2 0 1), .vec (.inplace 0 (.emplace [[7]])), .elem (.fromRef 0 0 0 1 false), .elem (.copyA 0 1 2),
+       .elem (.assign 0 1), .elem (.destroy 0), .elem (.destroy 1), .vec (.destroy 0)] := by
+  intro ps
+  refine ⟨rfl, ?_⟩
+  refine ⟨fun n b h => VOp.noConfusion h, ?_⟩
+  refine ⟨rfl, ?_⟩
+  refine ⟨rfl, ?_⟩
+  exact ⟨trivial, trivial, trivial, trivial, trivial⟩
 
 end Cntgs.C07
